@@ -11,3 +11,5 @@ import TinsModel.Props.C12
 #print axioms Tins.Props.C12.handles_disjoint
 #print axioms Tins.Props.C12.pinned_copy_assign_keeps_old_inner
 #print axioms Tins.Props.C12.fixed_copy_assign_drops_old_inner
+#print axioms Tins.Props.C12.copyAssignAlwaysSafe_fails
+#print axioms Tins.Props.C12.copy_assign_safe_partial
